@@ -173,6 +173,10 @@ def items(tier, rng):
                     "path_wall_s": 60})
     # adversarial decimals: k copies of capacity/k + delta -> the truncated scaled weights fit, the real ones do not
     adv = [([0.3335] * 3, 1.0), ([0.5004, 0.5004], 1.0), ([0.5009, 0.2509, 0.2509], 1.0), ([0.1001] * 2 + [0.8003], 1.0)]
+    # exact fills on a fine dyadic grid (u = 1/256, scale 1000: scaled weights 3.90625, 7.8125, ...): every item is needed and the sum
+    # equals the capacity exactly in binary floating point, so a scaled weight that is rounded *up* pushes the optimal subset out of the table
+    u = 1.0 / 256
+    adv += [([u, u, u], 3 * u), ([u, 2 * u, u], 4 * u), ([3 * u, u, u, u / 2], 5 * u), ([u] * 4, 4 * u), ([2 * u, 2 * u, 3 * u], 7 * u)]
     if not q:
         adv += [([0.2509] * 4, 1.0), ([1666.85] * 3, 5000.5), ([0.3335, 0.3335, 0.3331], 1.0)]
         for _ in range(40):
